@@ -370,7 +370,7 @@ Print Assumptions c18_sites_fast_model.
    record never decreases, the tracker stays a fraction *)
 Theorem c18_site_vault : forall pow now v x p t' r',
   vault_interest pow now v = Ok (Updated x p t' r') ->
-  let bt := if vs_bh v =? 0 then vs_pair_bt v else vs_bt v in
+  let bt := if (vs_bh v =? 0) || (vs_bt v <? vs_pair_bt v) then vs_pair_bt v else vs_bt v in
   0 <= now - bt /\ x = cmp_new pow (vs_debt v) (vs_fee v) (now - bt) /\
   (0 <= tracker_val (vs_tracker v) < P18 -> 0 <= x ->
      holds_C18_site_step (tracker_val (vs_tracker v)) (vs_intacc v) x p t' r' = true /\
@@ -387,7 +387,7 @@ Print Assumptions c18_site_vault.
    on math.Pow (its y == 0 case is modelled exactly) *)
 Theorem c18_site_vault_zero_time : forall core now v x p t' r',
   vault_interest (go_pow core) now v = Ok (Updated x p t' r') ->
-  now = (if vs_bh v =? 0 then vs_pair_bt v else vs_bt v) -> 0 <= tracker_val (vs_tracker v) < P18 ->
+  now = (if (vs_bh v =? 0) || (vs_bt v <? vs_pair_bt v) then vs_pair_bt v else vs_bt v) -> 0 <= tracker_val (vs_tracker v) < P18 ->
   x = 0 /\ p = 0 /\ t' = tracker_val (vs_tracker v) /\ r' = vs_intacc v.
 Proof.
   intros core now v x p t' r' E Hn Ht. apply vault_interest_spec in E as (_ & _ & _ & _ & A & B & C & D).
@@ -558,14 +558,16 @@ Proof. vm_compute. repeat split. Qed.
    fee update - is the value of CalculationOfRewards at the fee IN FORCE before the step, over a period
    that starts no earlier than that fee came into force and no earlier than the vault was settled last
    (so no second of a fee-less period is ever charged at a non-zero rate, and no period twice), on a
-   principal within the vault's debt - EXCEPT on vaults of the class kf_C18_2 (finding C18-F2).
+   principal within the vault's debt.  No class is excluded: with the repaired start-of-period rule
+   (finding C18-F2: the pair's stamp when it is later than the vault's own, in CalculateVaultInterest and
+   in the sweep) a vault stamped by an owner message during a fee-less period accrues from the switch-on.
    [calc] is arbitrary.  Premise ps_intr = false: no sweep of the history was cut short by an error of
    CalculationOfRewards (then the remaining vaults keep their stamps while the pair is re-stamped;
    with calc = the real function that needs a non-finite float result). *)
 Theorem c18_pair_charges_legit : forall calc ops now h wl stable fee,
   1 <= h -> 0 <= fee -> Forall pop_wf ops ->
   ps_intr (fst (prun calc (pinit now h wl stable fee) ops)) = false ->
-  Forall (fun e => Forall (fun c => kf_C18_2 c = false -> charge_legit calc (fst e) c) (snd e))
+  Forall (fun e => Forall (fun c => charge_legit calc (fst e) c) (snd e))
          (snd (prun calc (pinit now h wl stable fee) ops)).
 Proof. intros. apply prun_legit; auto. apply pinit_inv; assumption. Qed.
 Print Assumptions c18_pair_charges_legit.
@@ -604,7 +606,7 @@ Print Assumptions c18_pair_bound.
 Definition c18_wcalc (now bt p r : Z) : outcome Z :=
   if now <? bt then Err 1 else Ok (Z.max 0 p * Z.max 0 r * (now - bt)).
 Definition c18_f2_init := pinit 1000 20 true false 20000000000000000.
-(* the witness of C18-F2 (harness case 0): a vault at 2 %, the fee switched off after a day, a deposit
+(* the former witness of C18-F2 (harness case 0): a vault at 2 %, the fee switched off after a day, a deposit
    100 days later, the fee switched on again 265 days after that, MsgVaultInterestCalc in the same block *)
 Definition c18_f2_history : list pop :=
   [OCreate 200000000; OAdvance 86400 10; OSetFee 0; OAdvance 8640000 1000; OTouch 0 0;
@@ -612,28 +614,29 @@ Definition c18_f2_history : list pop :=
 Definition c18_f2_log := Eval vm_compute in snd (prun c18_wcalc c18_f2_init c18_f2_history).
 Definition c18_f2_state := Eval vm_compute in fst (last c18_f2_log (c18_f2_init, [])).
 Definition c18_f2_charge := Eval vm_compute in
-  hd (mkCh 0 (mkPV 0 0 None 0 0 0 false) 0 0 0 0) (snd (last c18_f2_log (c18_f2_init, []))).
+  hd (mkCh 0 (mkPV 0 0 None 0 0 0) 0 0 0 0) (snd (last c18_f2_log (c18_f2_init, []))).
 
-(* REFUTED without the class: in the very block in which the fee comes back (now = the start of the fee
-   in force) the vault is charged the new fee from its deposit in the fee-less period on *)
-Theorem c18_pair_charges_refuted : exists calc ops s0 c,
-  Forall pop_wf ops /\ ps_intr (fst (prun calc c18_f2_init ops)) = false /\
-  In (s0, [c]) (snd (prun calc c18_f2_init ops)) /\
-  ~ charge_legit calc s0 c /\ kf_C18_2 c = true /\
-  ps_now s0 = ps_tchg s0 /\ ps_fee s0 <> 0 /\ ch_from c < ps_tchg s0 /\ 0 < ch_amt c.
+(* the former counterexample of C18-F2, now a regression: in the very block in which the fee comes back
+   (now = the start of the fee in force) the interest calculation of the vault that was stamped by a
+   deposit in the fee-less period accrues from the switch-on: over zero time, nothing *)
+Theorem c18_pair_witness_fixed :
+  Forall pop_wf c18_f2_history /\ ps_intr (fst (prun c18_wcalc c18_f2_init c18_f2_history)) = false /\
+  nth_error (snd (prun c18_wcalc c18_f2_init c18_f2_history)) 7 = Some (c18_f2_state, [c18_f2_charge]) /\
+  charge_legit c18_wcalc c18_f2_state c18_f2_charge /\
+  ps_now c18_f2_state = ps_tchg c18_f2_state /\ ps_fee c18_f2_state <> 0 /\
+  (* the vault still carries the stamp of the deposit *)
+  pv_bh (ch_pre c18_f2_charge) <> 0 /\ pv_bt (ch_pre c18_f2_charge) < ps_tchg c18_f2_state /\
+  ch_from c18_f2_charge = ps_tchg c18_f2_state /\ ch_amt c18_f2_charge = 0.
 Proof.
-  exists c18_wcalc, c18_f2_history, c18_f2_state, c18_f2_charge.
-  split; [repeat constructor; cbn; lia|]. split; [vm_compute; reflexivity|].
-  split; [apply (nth_error_In _ 7); vm_compute; reflexivity|].
+  split; [repeat constructor; cbn; lia|]. split; [vm_compute; reflexivity|]. split; [vm_compute; reflexivity|].
   split.
-  - intros (_ & [Z0|(A & _)] & _); [vm_compute in Z0; discriminate|]. vm_compute in A. apply A; reflexivity.
+  - unfold charge_legit. vm_compute. split; [reflexivity|]. split; [right; split; discriminate|]. split; [right; reflexivity|reflexivity].
   - vm_compute. repeat split; discriminate.
 Qed.
-Print Assumptions c18_pair_charges_refuted.
+Print Assumptions c18_pair_witness_fixed.
 
 (* non-vacuity: on a history with a switch-off, a switch-on and a change between two non-zero fees (vault 0
-   never touched, vault 1 created while the fee is zero) no sweep is interrupted, no vault is in the
-   class, and the steps book non-zero accruals: the sweep of the switch-off, the calculation a day after
+   never touched, vault 1 created while the fee is zero) no sweep is interrupted and the steps book non-zero accruals: the sweep of the switch-off, the calculation a day after
    the fee came back (from the switch-on, not from the switch-off), the sweep of the fee change *)
 Example c18_pair_nonvacuous :
   let ops := [OCreate 200000000; OAdvance 86400 10; OSetFee 0; OAdvance 8640000 1000; OCreate 5000;
@@ -641,7 +644,6 @@ Example c18_pair_nonvacuous :
               OAdvance 50 1; OSetFee 50000000000000000] in
   let r := prun c18_wcalc c18_f2_init ops in
   Forall pop_wf ops /\ ps_intr (fst r) = false /\
-  forallb (fun e => forallb (fun c => negb (kf_C18_2 c)) (snd e)) (snd r) = true /\
   map (fun e => map (fun c => (ch_v c, ch_from c, ps_now (fst e) - ch_from c, ch_rate c, ch_amt c)) (snd e)) (snd r) =
   [[]; []; [(0, 1000, 86400, 20000000000000000, 345600000000000000000000000000)]; []; []; []; []; [];
    [(0, 8727500, 0, 20000000000000000, 0)]; [(1, 8727500, 0, 20000000000000000, 0)]; [];
